@@ -412,7 +412,7 @@ func genPaced(rng *rand.Rand, shard, nshards int, hooks int, emit emitter) {
 }
 
 func genFaults(tier string, rng *rand.Rand, shard, nshards int, hooks int, emit emitter) {
-	genPaced(rng, shard, nshards, hooks, emit)
+	defer genPaced(rng, shard, nshards, hooks, emit) // (last: the first operations of a shard are also run in cold processes)
 	i := 0
 	reps := 1
 	if tier == "thorough" {
